@@ -387,6 +387,8 @@ func c13InitDirected() []*sim.Scn {
 	for kind := int64(0); kind < 3; kind++ {
 		out = append(out, &sim.Scn{Cfg: map[string]int64{"initkind": kind, "initfrom": 1, "initto": 2048}})
 	}
+	// what go-header's syncer does to the store wrapper: duplicate appends from two goroutines (repair cd64817)
+	out = append(out, &sim.Scn{Cfg: map[string]int64{"initkind": 3, "initfrom": 1, "initto": 512}})
 	return out
 }
 
